@@ -8,7 +8,7 @@ from ..expr import C, SELF, canon, show, strip_epochs, walk
 from ..intervals import EQ, GT, LT, path_orderings
 from ..model import AnalysisError
 from ..own import BINF, TABLE, cand_of, is_bucket
-from .C03 import CTXS, candidates_stable, cpaths, insert_flows
+from .C03 import CTXS, bin_drops, candidates_stable, cpaths, insert_flows, presence
 
 EXPL = ("Bounded buckets: every append of an entry to a bucket is dominated by len(bucket) < bucket_size for that bucket "
         "(ordering-set semantics) or sits in a loader loop over range(bucket_size).  Candidate placement: from the ownership "
@@ -121,10 +121,10 @@ def check(prog, rep, tier):
         okd = True
         for p in cpaths(prog, ctx, add):
             ins = [e for e in p.events if e.kind == "call" and e.name == CTXS[ctx]]
-            pres = [c for c in p.conds if c.atom[0] == "cmp" and c.atom[1] in ("is", "isnot") and strip_epochs(c.atom[2])[0] == "ret"
-                    and strip_epochs(c.atom[2])[1].endswith("._check_if_present") and not c.loops]
+            pr = presence(p)
+            pres = pr is not None
             if ins:
-                absent = pres and ((pres[0].atom[1] == "is") == pres[0].truth)
+                absent = pres and pr[0] == "absent"
                 if ctx == "CuckooFilter" and not absent:
                     rep.bad("C15.no-duplicate", f"{ctx}.add", "insert without the presence test", "a fingerprint is inserted on a path where it may already be stored", ins[0].where())
                     okd = False
@@ -229,8 +229,9 @@ def check(prog, rep, tier):
             continue
         seen = True
         z = [c for c in p.conds if c.atom[0] == "cmp" and c.atom[1] in ("==", "!=") and c.atom[3] == C(0) and
-             any(n[0] == "f" and n[2] == BINF for n in walk(c.atom[2]))]
-        rem = [e for e in p.events[dec[0]:] if e.kind == "call" and e.target is None and e.name == "remove" and e.recv is not None and is_bucket(e.recv) is not None]
+             (any(n[0] == "f" and n[2] == BINF for n in walk(c.atom[2]))
+              or (strip_epochs(c.atom[2])[0] == "ret" and strip_epochs(c.atom[2])[1].endswith("CountingCuckooBin.decrement")))]  # decrement() returns the new count
+        rem = bin_drops(p, dec[0])
         if not z:
             rep.bad("C15.no-zero-bin", f"{ctx}.remove", "no zero test after decrement", "after decrementing a bin its count is not tested against zero", rm.where())
             okr = False
